@@ -1386,6 +1386,29 @@ Proof.
   vm_compute. intros [H|[]]. discriminate H.
 Qed.
 
+(* update_from_balance_snapshot keeps staking_slips and files the staked slip as unspent:
+   the staking transaction built next takes it from both sets *)
+Definition wit_stake_slip : slip := out_slip 1 645 4 2 1 TY_BLOCKSTAKE.
+Definition wit_snapshot_ops : list op := [OAddSlip 4 2 wit_stake_slip true; OSnapshot [wit_stake_slip]].
+
+Lemma refuted_snapshot_staking :
+  exists ops w sorder uorder amount unlocked lastvalid w' t,
+    ops_u64 ops /\ run true (init 1) ops = Ok w /\
+    enumerates sorder (w_staking w) = true /\ enumerates uorder (w_unspent w) = true /\
+    create_staking true w sorder uorder amount unlocked lastvalid = Ok (w', Some t) /\
+    ~ NoDup (map s_key (bt_from t)).
+Proof.
+  exists wit_snapshot_ops. eexists.
+  exists [mkK 1 4 2 1 645 8], [mkK 1 4 2 1 645 8], 1000, 10, 0. do 2 eexists.
+  split.
+  { intros o [<-|[<-|[]]]; cbn [op_u64].
+    - vm_compute. reflexivity.
+    - intros s [<-|[]]. split; vm_compute; reflexivity. }
+  split; [vm_compute; reflexivity|]. split; [vm_compute; reflexivity|].
+  split; [vm_compute; reflexivity|]. split; [vm_compute; reflexivity|].
+  vm_compute. intros H. inversion H as [|x l Hn _]. apply Hn. left. reflexivity.
+Qed.
+
 (* the witnesses are inside the respective class *)
 Lemma wit_edge_known : exists w, run true (init 1) wit_edge_ops = Ok w /\
   known_edge w [mkK 1 5 0 0 100 0; mkK 1 1 0 0 1000 0] [500] 0 5 5 = true.
